@@ -499,7 +499,7 @@ def run(ctx):
     for i in range(n):
         run_ = Run(ctx)
         if not run_.ok:
-            ctx.violation("cannot-establish-communication", {"comm": run_.rig.comm_state})
+            ctx.unsure("precondition failed: the handler did not reach COMMUNICATING with a cooperative peer (C07/C20 judge that)")
             run_.rig.shutdown()
             continue
         for _ in range(ctx.rng.randint(8, length)):
